@@ -395,7 +395,7 @@ TableView(S) == [p \in PgNames |-> [pred |-> PredTable(S, p), ideal |-> IdealTab
 \* ------------------------------------------------------------------ behaviour
 EmptyStore == [gch |-> <<>>, hs |-> [h \in Holes |-> NoHole], attrs |-> <<>>, akeys |-> <<>>, objIds |-> <<>>,
                labels |-> {}, cat |-> [l \in Labels |-> <<>>], idx |-> [l \in Labels |-> <<>>], pgc |-> {},
-               broken |-> FALSE]
+               broken |-> FALSE, halt |-> FALSE]
 NoTgt == [holes |-> {}, names |-> {}]
 Init == s = EmptyStore /\ last = [act |-> "Init", args |-> [x |-> 0], out |-> "ok", dev |-> {}, tgt |-> NoTgt]
 
@@ -590,7 +590,12 @@ AddValuesToTable ==
 Reopen ==
     IF Corrupt(s)          \* a record without 'ID': attributes_keys raises KeyError while the group's children load
     THEN Done([s EXCEPT !.broken = TRUE], "Reopen", [x |-> 0], "raises", {"HoleRemovalKeepsGroupChild"}, NoTgt)
-    ELSE Done(ReopenState(s), "Reopen", [x |-> 0], "ok", {}, NoTgt)
+    ELSE LET R == ReopenState(s)
+             \* a key whose record carries another name (RenameKeepsLabel): loading the child adds a second
+             \* 'Property:' key for the same uid (data.py:72-75); the model stops here
+             stale == \E h \in LiveHoles(R) : \E k \in DOMAIN GetRec(R, h).keys :
+                         LET e == GetRec(R, h).keys[k] IN HasRec(R, e.d) /\ GetRec(R, e.d).name # e.n
+         IN Done([R EXCEPT !.halt = stale], "Reopen", [x |-> 0], "ok", {}, NoTgt)
 
 \* group.copy(name=...) | group.copy(parent=other_workspace)  (Concatenator.copy 203-273)
 CopyGroup ==
@@ -607,7 +612,7 @@ CopyGroup ==
 
 Enabled(a) == a \in Acts
 Next ==
-    /\ ~s.broken
+    /\ ~s.broken /\ ~s.halt
     /\ TLCGet("level") <= MaxLevel
     /\ IF Corrupt(s) THEN Reopen
        ELSE \/ Enabled("Populate") /\ Populate
@@ -676,6 +681,8 @@ ReadBackOK == \A h \in LiveHoles(s) : \A n \in KeyNames(GetRec(s, h)) :
 TableOK == \A p \in PgNames : PredTable(s, p) = IdealTable(s, p, FALSE)
 NeverBroken == ~s.broken /\ ~Corrupt(s)
 GroupChildrenLive == s.gch = s.objIds
+\* the group's cached list of property-group ids names live groups only (the table view is built from it)
+PgCacheFresh == ~StaleCache(s)
 
 \* an action on (h, name) leaves every other (h', name') readable and unchanged, live and in storage
 Isolation ==
@@ -686,9 +693,9 @@ Isolation ==
              /\ ReadStore(s', h, n) = ReadStore(s, h, n)]_vars
 
 InvNames == <<"AllTiled", "NoDuplicateOwner", "RowsOwnedLive", "OneRecordEach", "KeysMatchChildren",
-              "PgsConsistent", "ReadBackOK", "TableOK", "NeverBroken", "GroupChildrenLive">>
+              "PgsConsistent", "ReadBackOK", "TableOK", "NeverBroken", "GroupChildrenLive", "PgCacheFresh">>
 InvVals == <<AllTiled, NoDuplicateOwner, RowsOwnedLive, OneRecordEach, KeysMatchChildren,
-             PgsConsistent, ReadBackOK, TableOK, NeverBroken, GroupChildrenLive>>
+             PgsConsistent, ReadBackOK, TableOK, NeverBroken, GroupChildrenLive, PgCacheFresh>>
 Bad == IF s.broken THEN {"NeverBroken"} ELSE {InvNames[i] : i \in {j \in DOMAIN InvNames : ~InvVals[j]}}
 
 \* ------------------------------------------------------------------ export (harness/tlc.py)
